@@ -100,7 +100,8 @@ def make_text(case, rng):
     # then called without them), or both - differing - in which case the explicit arguments decide
     route = case.get("mode_route", "args")
     if route == "own":
-        t.justify, t.overflow, t.no_wrap = case["justify"], case["overflow"], case["no_wrap"]
+        from rv.gen.specs import _rt
+        t.justify, t.overflow, t.no_wrap = _rt(case["justify"]), _rt(case["overflow"]), case["no_wrap"]
     elif route == "conflict":
         t.justify, t.overflow, t.no_wrap = case["own_mode"]
     return t
@@ -109,7 +110,11 @@ def make_text(case, rng):
 def wrap_args(case):
     if case.get("mode_route") == "own":
         return {"justify": None, "overflow": None, "no_wrap": None}
-    return {"justify": case["justify"], "overflow": case["overflow"], "no_wrap": case["no_wrap"]}
+    # (mode names as a program has them at run time - read from a file, lower-cased: equal to the literals, not the
+    # interpreter's shared objects for them)
+    from rv.gen.specs import _rt
+    j = case["justify"]
+    return {"justify": _rt(j) if j != "default" else j, "overflow": _rt(case["overflow"]), "no_wrap": case["no_wrap"]}
 
 
 def nonblank(s):
